@@ -27,12 +27,51 @@ var profC03 = Profile{
 	MaxBars: 6, MinBars: 2, MaxSteps: 30, Refresh: []string{"autoinj", "autoinj", "autort"}, QLens: []int{-1, -1, -4},
 	Pop: 30, Queue: 20, Prio: true, Ext: 15, Text: 1, Rm: 30, NoPop: 25, AbortW: 3, TicksW: 4,
 	SyncDecors: 1, PlainDecors: 1, Wraps: true, DisabledPct: 6, OnCompleteFill: 50, Cancel: 12, PostTerm: true,
-	Fillers: []string{"bar", "tag", "spinner"}, LateAdd: true,
+	Fillers: []string{"bar", "tag", "spinner"}, LateAdd: true, Delay: 15, DelaySleep: 60,
 }
 
 func genC03(t *rapid.T) interface{} {
 	excludedKnown = 0
 	sc := genScenario(t, &profC03)
+	if sc.Cfg.Delay && rapid.IntRange(0, 2).Draw(t, "allfinishduringdelay") == 0 {
+		// a short job: every bar finishes and is shut down while the render delay
+		// is still pending; the delay ends just before Wait
+		cancelled := false
+		var steps []engine.Step
+		added := map[int]bool{}
+		for _, st := range sc.Steps {
+			if st.Op == "release" {
+				continue
+			}
+			if st.Op == "cancel" || st.Op == "shutdown" {
+				cancelled = true
+			}
+			if st.Op == "add" {
+				added[st.Bar] = true
+			}
+			steps = append(steps, st)
+		}
+		if !cancelled {
+			for i := range sc.Bars {
+				if !added[i] {
+					continue
+				}
+				if i%2 == 0 {
+					steps = append(steps, engine.Step{Op: "settotal", Bar: i, N: -1, Flag: true}, engine.Step{Op: "abort", Bar: i})
+				} else {
+					steps = append(steps, engine.Step{Op: "abort", Bar: i, Flag: i%3 == 0})
+				}
+			}
+			for k := 0; k < 3; k++ {
+				if sc.Cfg.Refresh == "autort" {
+					steps = append(steps, engine.Step{Op: "sleep", N: 4000})
+				} else {
+					steps = append(steps, engine.Step{Op: "tick"})
+				}
+			}
+			sc.Steps = steps
+		}
+	}
 	vstat.Excluded(excludedKnown)
 	return sc
 }
@@ -140,8 +179,30 @@ func runC03(ci interface{}) Result {
 			nAdded++
 		}
 	}
-	if nAdded == 0 || tr.ChunksAtWait == 0 {
+	if nAdded == 0 {
 		return r
+	}
+	if tr.ChunksAtWait == 0 {
+		// nothing at all was written: fine only if no bar is left to show
+		if !cancelled {
+			for i, stays := range engine.FinalContainer(sc, end) {
+				if stays {
+					// (the release is only followed by a pause in some cases: rule out
+					// that the container simply had not been scheduled yet)
+					for again := 0; again < 2; again++ {
+						if t2 := engine.Run(sc, engine.Options{}); t2.ChunksAtWait > 0 || t2.Hang != nil || t2.Inconclusive != "" {
+							return r
+						}
+					}
+					r.Err, r.Kind = fmt.Errorf("Wait returned and nothing was ever written, although bar %d finished and is still in the container", i), "no-frame"
+					return r
+				}
+			}
+		}
+		return r
+	}
+	if sc.Cfg.Delay {
+		r.Classes = append(r.Classes, "render-delay")
 	}
 	last := engine.ParseFrame(tr.ChunksAtWait-1, tr.Chunks[tr.ChunksAtWait-1].Seq, tr.Chunks[tr.ChunksAtWait-1].Data)
 	for i := range sc.Bars {
